@@ -3,6 +3,7 @@ package eng
 import (
 	"go/token"
 	"go/types"
+	"strings"
 
 	"golang.org/x/tools/go/ssa"
 )
@@ -16,8 +17,9 @@ type LockID interface{}
 // entry to in. Lock/RLock generate, Unlock/RUnlock kill, a deferred unlock
 // keeps the lock to the exit.
 type Locks struct {
-	fn  *ssa.Function
-	in  map[*ssa.BasicBlock]map[LockID]bool
+	may   bool
+	fn    *ssa.Function
+	in    map[*ssa.BasicBlock]map[LockID]bool
 	p     *Prog
 	all   map[LockID]bool
 	entry map[LockID]bool
@@ -60,9 +62,16 @@ func (p *Prog) lockOp(in ssa.Instruction) (LockID, int) {
 	return nil, 0
 }
 
-// LockAnalysis runs the dataflow for fn.
-func (p *Prog) LockAnalysis(fn *ssa.Function) *Locks {
-	l := &Locks{fn: fn, p: p, in: map[*ssa.BasicBlock]map[LockID]bool{}, all: map[LockID]bool{}}
+// LockAnalysis runs the must-hold dataflow for fn.
+func (p *Prog) LockAnalysis(fn *ssa.Function) *Locks { return p.lockAnalysis(fn, false) }
+
+// MayLockAnalysis runs the may-hold variant: Held(in) is the set of mutexes
+// locked on SOME path from the entry to in (used for "nothing blocks while a
+// mutex is held").
+func (p *Prog) MayLockAnalysis(fn *ssa.Function) *Locks { return p.lockAnalysis(fn, true) }
+
+func (p *Prog) lockAnalysis(fn *ssa.Function, may bool) *Locks {
+	l := &Locks{may: may, fn: fn, p: p, in: map[*ssa.BasicBlock]map[LockID]bool{}, all: map[LockID]bool{}}
 	for _, b := range fn.Blocks {
 		for _, in := range b.Instrs {
 			if id, op := p.lockOp(in); op != 0 && id != nil {
@@ -82,8 +91,13 @@ func (p *Prog) LockAnalysis(fn *ssa.Function) *Locks {
 	}
 	out := map[*ssa.BasicBlock]map[LockID]bool{}
 	for _, b := range fn.Blocks {
-		l.in[b] = top()
-		out[b] = top()
+		if may {
+			l.in[b] = map[LockID]bool{}
+			out[b] = map[LockID]bool{}
+		} else {
+			l.in[b] = top()
+			out[b] = top()
+		}
 	}
 	// a transparent helper starts with what every caller holds at the call
 	entry := map[LockID]bool{}
@@ -91,8 +105,8 @@ func (p *Prog) LockAnalysis(fn *ssa.Function) *Locks {
 		lockDepth++
 		sites := p.StaticCallSites(fn)
 		for i, cs := range sites {
-			held := p.LockAnalysis(cs.Parent()).Held(cs)
-			if i == 0 {
+			held := p.lockAnalysis(cs.Parent(), may).Held(cs)
+			if i == 0 || may {
 				for k := range held {
 					entry[k] = true
 					l.all[k] = true
@@ -107,10 +121,12 @@ func (p *Prog) LockAnalysis(fn *ssa.Function) *Locks {
 		}
 		lockDepth--
 	}
-	for _, b := range fn.Blocks {
-		for k := range entry {
-			l.in[b][k] = true
-			out[b][k] = true
+	if !may {
+		for _, b := range fn.Blocks {
+			for k := range entry {
+				l.in[b][k] = true
+				out[b][k] = true
+			}
 		}
 	}
 	l.entry = entry
@@ -130,6 +146,13 @@ func (p *Prog) LockAnalysis(fn *ssa.Function) *Locks {
 				}
 			} else if len(b.Preds) == 0 {
 				inSet = map[LockID]bool{} // recover block etc.
+			} else if may {
+				inSet = map[LockID]bool{}
+				for _, pr := range b.Preds {
+					for k := range out[pr] {
+						inSet[k] = true
+					}
+				}
 			} else {
 				inSet = top()
 				for _, pr := range b.Preds {
@@ -286,6 +309,11 @@ func (p *Prog) StructField(short, typ, name string) *types.Var {
 	if pk == nil {
 		return nil
 	}
+	canonOwner := short + "." + typ
+	if a := actualTypeName(canonOwner); a != canonOwner {
+		typ = a[strings.LastIndex(a, ".")+1:]
+	}
+	name = actualFieldName(canonOwner, name)
 	obj := pk.Types.Scope().Lookup(typ)
 	if obj == nil {
 		return nil
@@ -307,6 +335,9 @@ func (p *Prog) StructFields(short, typ string) []*types.Var {
 	pk := p.Pkg(short)
 	if pk == nil {
 		return nil
+	}
+	if a := actualTypeName(short + "." + typ); a != short+"."+typ {
+		typ = a[strings.LastIndex(a, ".")+1:]
 	}
 	obj := pk.Types.Scope().Lookup(typ)
 	if obj == nil {
